@@ -22,13 +22,22 @@ class Param:
         self.ctype = ctype
         self.name = name
         self.default = default          # C++ text or None
-        self.kind, self.tag = PTYPES[ctype]
+        self.ocls = None                # class name for a class-pointer parameter `Cls *p +intent(in)`
+        self.clsid = None               # 1-based index of that class in the library
+        if ctype in PTYPES:
+            self.kind, self.tag = PTYPES[ctype]
+        else:
+            assert ctype.endswith(" *"), ctype
+            self.kind, self.tag = "object", "u"
+            self.ocls = ctype[:-2]
 
-    def decl(self):
-        sep = "" if self.ctype.endswith("&") else " "
+    def decl(self, cxx=False):
+        sep = "" if self.ctype.endswith(("&", "*")) else " "
         s = "%s%s%s" % (self.ctype, sep, self.name)
         if self.default is not None:
             s += " = " + self.default
+        if self.kind == "object" and not cxx:
+            s += " +intent(in)"
         return s
 
     def default_value(self):
@@ -108,7 +117,8 @@ class Group:
         """Overload set in the Lean driver's encoding."""
         out = []
         for f in self.fns:
-            ps = ",".join(p.tag + ("=" if p.default is not None else "") for p in f.params)
+            ps = ",".join(p.tag + (str(p.clsid) if p.kind == "object" else "") + ("=" if p.default is not None else "")
+                          for p in f.params)
             out.append(("F:" if f.is_function() else "S:") + ps)
         return "|".join(out)
 
@@ -128,9 +138,11 @@ class LuaLib:
 
     # ------------------------------------------------------------ YAML
     def lib(self):
-        decls = [{"decl": f.decl()} for f in self.free]
+        # classes first: a class-pointer parameter needs its class declared before it is used
+        decls = []
         for cname, fns in self.classes:
             decls.append({"decl": "class " + cname, "declarations": [{"decl": f.decl()} for f in fns]})
+        decls += [{"decl": f.decl()} for f in self.free]
         if self.ns:
             decls.append({"decl": "namespace " + self.ns[0], "declarations": [{"decl": f.decl()} for f in self.ns[1]]})
         opts = {"wrap_fortran": False, "wrap_c": False, "wrap_python": False, "wrap_lua": True, "debug": True}
@@ -143,7 +155,8 @@ class LuaLib:
     def header(self):
         g = self.name.upper() + "_HPP"
         o = ["#ifndef " + g, "#define " + g, "#include <string>", "#include <vector>", "#include <sstream>",
-             "#include <cstdio>",
+             "#include <cstdio>", "#include <map>",
+             "inline std::map<const void *, int> &c18_ids() { static std::map<const void *, int> m; return m; }",
              "inline std::vector<std::string> &c18_trace() { static std::vector<std::string> t; return t; }",
              "inline int &c18_nobj() { static int n = 0; return n; }",
              "struct C18Rec {",
@@ -160,6 +173,7 @@ class LuaLib:
              "    C18Rec &a(const std::string &v) { os << \" s:\"; if (v.empty()) os << '-';",
              "        for (unsigned char c : v) { char b[4]; std::snprintf(b, sizeof b, \"%02x\", c); os << b; } return *this; }",
              "    C18Rec &obj(int id) { os << \" o:\" << id; return *this; }",
+             "    C18Rec &p(const void *v) { os << \" o:\" << (c18_ids().count(v) ? c18_ids()[v] : 0); return *this; }",
              "    ~C18Rec() { c18_trace().push_back(os.str()); }",
              "};",
              "inline const std::string &c18_str(int uid) { static std::string s[512]; s[uid % 512] = \"r\" + std::to_string(uid); return s[uid % 512]; }",
@@ -170,7 +184,7 @@ class LuaLib:
             if in_class and f.role != "free" and not f.static:
                 rec += ".obj(id_)"
             for p in f.params:
-                rec += ".a(%s)" % p.name
+                rec += (".p(%s)" if p.kind == "object" else ".a(%s)") % p.name
             lines = ["{ " + rec + ";"]
             rv = f.retval()
             if f.rtype in ("int", "long"):
@@ -185,10 +199,12 @@ class LuaLib:
             return " ".join(lines)
 
         def proto(f):
-            ps = ", ".join(p.decl() for p in f.params)
+            ps = ", ".join(p.decl(cxx=True) for p in f.params)
             sep = "" if f.rtype.endswith("&") else " "
             return "%s%s%s%s(%s)%s" % ("static " if f.static else "", f.rtype, sep, f.name, ps, " const" if f.const else "")
 
+        for cname, fns in self.classes:
+            o.append("class %s;" % cname)
         for f in self.free:
             o.append("inline " + proto(f) + " " + body(f, "", False))
         for cname, fns in self.classes:
@@ -196,10 +212,11 @@ class LuaLib:
             o.append("public:")
             o.append("    int id_;")
             for f in fns:
-                ps = ", ".join(p.decl() for p in f.params)
+                ps = ", ".join(p.decl(cxx=True) for p in f.params)
                 if f.role == "ctor":
-                    rec = "C18Rec(%d).obj(id_)" % f.uid + "".join(".a(%s)" % p.name for p in f.params)
-                    o.append("    %s(%s) : id_(++c18_nobj()) { %s; }" % (cname, ps, rec))
+                    rec = "C18Rec(%d).obj(id_)" % f.uid + "".join(
+                        (".p(%s)" if p.kind == "object" else ".a(%s)") % p.name for p in f.params)
+                    o.append("    %s(%s) : id_(++c18_nobj()) { c18_ids()[this] = id_; %s; }" % (cname, ps, rec))
                 elif f.role == "dtor":
                     o.append("    ~%s() { C18Rec(%d).obj(id_); }" % (cname, f.uid))
                 else:
@@ -216,20 +233,23 @@ class LuaLib:
 
 # ---------------------------------------------------------------------- random construction
 def _default_for(r, ctype):
+    """Default value texts over the whole value space of the type, including the values that are
+    false in Python once parsed (0, 0.0) and the empty string: whether a parameter HAS a default must
+    not depend on what the default is."""
     kind = PTYPES[ctype][0]
     if kind == "int":
-        return str(r.randrange(2, 90))
+        return r.choice(["0", "0", "1", str(r.randrange(2, 90)), str(r.randrange(2, 90))])
     if kind == "float":
-        return "%d.5" % r.randrange(1, 9)
+        return r.choice(["0.0", "0.0", "0.5", "%d.5" % r.randrange(1, 9), "%d.0" % r.randrange(1, 9)])
     if kind == "bool":
         return r.choice(["true", "false"])
-    return '"dflt%d"' % r.randrange(1, 9)
+    return r.choice(['""', '"dflt%d"' % r.randrange(1, 9), '"0"'])
 
 
 NPARAMS = [0, 1, 1, 2, 2, 3, 3, 4, 4, 5, 5, 6]
 
 
-def _gen_overloads(r, lib, name, role, cls, novl, allow_defaults=True, rtypes=None, maxargs=6):
+def _gen_overloads(r, lib, name, role, cls, novl, allow_defaults=True, rtypes=None, maxargs=6, objtypes=()):
     """Overloads of one name such that no two offered signatures have the same C++ parameter types
     (C++ itself would reject such a call as ambiguous).  0..6 parameters of mixed Lua types; the
     first defaulted parameter is at any position 1..n (or none): every trailing run of defaults."""
@@ -240,12 +260,18 @@ def _gen_overloads(r, lib, name, role, cls, novl, allow_defaults=True, rtypes=No
         tries += 1
         n = min(r.choice(NPARAMS), maxargs)
         types = [r.choice(list(PTYPES)) for _ in range(n)]
+        # class-pointer parameters (`Cls *p +intent(in)`) of classes already declared
+        for i in range(n):
+            if objtypes and r.random() < 0.15:
+                types[i] = r.choice(objtypes)[0] + " *"
         if allow_defaults and n and r.random() < 0.6:
             ndef = r.randrange(1, n + 1)        # defaults start at position n - ndef + 1 (1-based)
         else:
             ndef = 0
         sigs = []
         ok = True
+        if any(t not in PTYPES for t in types[n - ndef:]):
+            continue                    # no default values for class pointers
         for k in range(n - ndef, n + 1):
             sig = tuple(types[:k])
             if sig in seen or sig in sigs:
@@ -258,6 +284,8 @@ def _gen_overloads(r, lib, name, role, cls, novl, allow_defaults=True, rtypes=No
         for i, t in enumerate(types):
             d = _default_for(r, t) if i >= n - ndef else None
             params.append(Param(t, "p%d_%d" % (uid, i), d))
+            if params[-1].kind == "object":
+                params[-1].clsid = dict(objtypes)[params[-1].ocls]
         if role == "ctor":
             rtype = cls
         elif role == "dtor":
@@ -272,6 +300,8 @@ def _gen_overloads(r, lib, name, role, cls, novl, allow_defaults=True, rtypes=No
 
 def gen_lualib(r, name, nfree=None, nclasses=None, with_ns=None, rich=False):
     lib = LuaLib(name)
+    nclasses = r.choice([1, 1, 2, 2]) if nclasses is None else nclasses
+    allcls = [("Cls%d" % (ci + 1), ci + 1) for ci in range(nclasses)]
     nfree = r.randrange(3, 7) if nfree is None else nfree
     names = ["Alpha", "betaFunc", "gamma_x", "DeltaTwo", "eps", "Zeta9", "etaName", "Theta"]
     r.shuffle(names)
@@ -281,7 +311,7 @@ def gen_lualib(r, name, nfree=None, nclasses=None, with_ns=None, rich=False):
         novl = r.choice([1, 1, 2, 3, 4] if rich else [1, 2, 2, 3])
         while True:
             save = lib.nfn
-            fns = _gen_overloads(r, lib, nm, "free", None, novl)
+            fns = _gen_overloads(r, lib, nm, "free", None, novl, objtypes=allcls)
             if fns:
                 break
             lib.nfn = save
@@ -303,7 +333,6 @@ def gen_lualib(r, name, nfree=None, nclasses=None, with_ns=None, rich=False):
                     g.fns.append(f)
     lib.free = order
     lib.groups.extend(free_groups)
-    nclasses = r.choice([1, 1, 2]) if nclasses is None else nclasses
     for ci in range(nclasses):
         cname = "Cls%d" % (ci + 1)
         fns = []
@@ -322,7 +351,7 @@ def gen_lualib(r, name, nfree=None, nclasses=None, with_ns=None, rich=False):
         for mn in mnames:
             while True:
                 save = lib.nfn
-                ms = _gen_overloads(r, lib, mn, "method", cname, r.choice([1, 1, 2, 3]))
+                ms = _gen_overloads(r, lib, mn, "method", cname, r.choice([1, 1, 2, 3]), objtypes=allcls[:ci + 1])
                 if ms:
                     break
                 lib.nfn = save
@@ -342,7 +371,7 @@ def gen_lualib(r, name, nfree=None, nclasses=None, with_ns=None, rich=False):
             nm = "inner%d" % k
             while True:
                 save = lib.nfn
-                fs = _gen_overloads(r, lib, nm, "free", None, r.choice([1, 2]))
+                fs = _gen_overloads(r, lib, nm, "free", None, r.choice([1, 2]), objtypes=allcls)
                 if fs:
                     break
                 lib.nfn = save
@@ -372,22 +401,25 @@ def fixed_lualib(name="luafix"):
     h = mk("h", "free", None, [[P("bool")]], ["std::string"])
     same = mk("same", "free", None, [[P("int")], [P("double")]], ["int", "double"])
     z = mk("z", "free", None, [[]], ["void"])
+    # defaults whose value is zero / empty: the shorter arity must exist all the same
+    zd = mk("zd", "free", None, [[P("int"), P("int", "0")], [P("double"), P("double", "0.0"), P("const std::string &", '""')]],
+            ["int", "double"])
     # const char* converts to bool by a standard conversion: the string overload must still be reached
     hj = mk("hj", "free", None, [[P("const std::string &")], [P("bool")], [P("bool"), P("const std::string &")]],
             ["void", "void", "int"])
     # many parameters, several trailing defaults starting late, mixed tags; every arity from the
     # first default on is a signature of its own
     wide = mk("wide", "free", None,
-              [[P("int"), P("const std::string &"), P("double"), P("bool", "true"), P("int", "7"), P("double", "2.5")]],
+              [[P("int"), P("const std::string &"), P("double"), P("bool", "true"), P("int", "0"), P("double", "0.0")]],
               ["int"])
     wide2 = mk("wide2", "free", None,
                [[P("bool"), P("int"), P("const std::string &"), P("double"), P("int", "4"), P("const std::string &", '"dflt1"')],
                 [P("const std::string &"), P("int"), P("bool"), P("bool", "false"), P("double", "1.5")],
-                [P("int", "1"), P("int", "2"), P("int", "3"), P("int", "4"), P("int", "5")]],
+                [P("int", "0"), P("int", "2"), P("int", "0"), P("int", "4"), P("int", "0")]],
                ["void", "double", "std::string"])
-    lib.free = f0 + g[:1] + h + g[1:] + same + z + hj + wide + wide2
+    lib.free = f0 + g[:1] + h + g[1:] + same + z + hj + wide + wide2 + zd
     for nm, fs in (("f0", f0), ("g", g), ("h", h), ("same", same), ("z", z), ("hj", hj), ("wide", wide),
-                   ("wide2", wide2)):
+                   ("wide2", wide2), ("zd", zd)):
         lib.groups.append(Group(nm, "free", None, fs))
     ct = mk("ctor", "ctor", "Foo", [[], [P("int")], [P("const std::string &"), P("int"), P("double"), P("bool", "true"), P("int", "9")]],
             ["Foo", "Foo", "Foo"])
@@ -396,13 +428,42 @@ def fixed_lualib(name="luafix"):
     m1 = mk("m1", "method", "Foo", [[P("int")]], ["int"])
     m2 = mk("m2", "method", "Foo", [[P("int")], [P("const std::string &"), P("int", "3")]], ["void", "bool"])
     cm = mk("cm", "method", "Foo", [[P("double")]], ["bool"], const=True)
+    mz = mk("mz", "method", "Foo", [[P("int", "0")]], ["int"])
     mw = mk("mw", "method", "Foo",
             [[P("bool"), P("int"), P("const std::string &"), P("double", "1.5"), P("int", "4")],
              [P("int"), P("int"), P("int"), P("int"), P("bool", "true"), P("bool", "false")]],
             ["int", "void"])
-    lib.classes.append(("Foo", ct + dt + m0 + m1 + m2 + cm + mw))
+    # class-pointer arguments: of the own class, of another wrapped class, overloaded on the class
+    def OP(c, i):
+        return ("%s *" % c, None, i)
+    def mko(nm, role, cls, sigs, rt, **kw):
+        fns = []
+        for ps, r_ in zip(sigs, rt):
+            uid = lib.new_uid()
+            params = []
+            for i, x in enumerate(ps):
+                pp = Param(x[0], "p%d_%d" % (uid, i), x[1])
+                if len(x) > 2:
+                    pp.clsid = x[2]
+                params.append(pp)
+            fns.append(Fn(uid, nm, params, r_, role=role, cls=cls, **kw))
+        return fns
+    same_cls = mko("eat", "method", "Foo", [[OP("Foo", 1)], [P("int"), OP("Foo", 1)]], ["int", "void"])
+    lib.classes.append(("Foo", ct + dt + m0 + m1 + m2 + cm + mw + mz + same_cls))
+    bct = mk("ctor", "ctor", "Bar", [[]], ["Bar"])
+    bdt = mk("dtor", "dtor", "Bar", [[]], ["void"])
+    take = mko("take", "method", "Bar", [[OP("Foo", 1), P("int", "0")], [OP("Bar", 2)], [P("const std::string &"), OP("Foo", 1), OP("Bar", 2)]],
+               ["int", "bool", "void"])
+    lib.classes.append(("Bar", bct + bdt + take))
+    lib.groups.append(Group("Bar", "ctor", "Bar", bct))
+    lib.groups.append(Group("__gc", "dtor", "Bar", bdt))
+    lib.groups.append(Group("take", "method", "Bar", take))
+    lib.groups.append(Group("eat", "method", "Foo", same_cls))
+    give = mko("give", "free", None, [[OP("Bar", 2)], [OP("Foo", 1), OP("Bar", 2), P("double", "0.0")]], ["void", "double"])
+    lib.free = lib.free + give
+    lib.groups.append(Group("give", "free", None, give))
     lib.groups.append(Group("Foo", "ctor", "Foo", ct))
     lib.groups.append(Group("__gc", "dtor", "Foo", dt))
-    for nm, fs in (("m0", m0), ("m1", m1), ("m2", m2), ("cm", cm), ("mw", mw)):
+    for nm, fs in (("m0", m0), ("m1", m1), ("m2", m2), ("cm", cm), ("mw", mw), ("mz", mz)):
         lib.groups.append(Group(nm, "method", "Foo", fs))
     return lib
